@@ -426,6 +426,26 @@ func TestPendingRollupFiles(t *testing.T) {
 			e.fatalf("final compaction: %v", err)
 		}
 		e.step("final")
+		// bounded progress: nothing is pending any more, every snapshot is closed, one more pass: the source
+		// family directory holds exactly the tables of its current version
+		for _, h := range e.held {
+			h.snap.Close()
+		}
+		e.held = nil
+		kv.VerifDeleteObsoleteFiles(e.fam)
+		if e.violation != "" {
+			e.fatalf("final obsolete-file pass: %s", e.violation)
+		}
+		tables, derr := tablesInDir(e.famPath)
+		if derr != nil {
+			e.fatalf("harness: %v", derr)
+		}
+		cur := currentTables(e.fam)
+		if fmt.Sprint(keysOfInt(tables)) != fmt.Sprint(keysOfInt(cur)) {
+			e.fatalf("end of history (every rollup completed, every snapshot closed, obsolete-file pass ran): the source family directory holds tables %v, its current version %v; rollup registrations left: %v",
+				keysOfInt(tables), keysOfInt(cur), kv.VerifFamilyVersion(e.fam).(version.FamilyVersion).GetLiveRollupFiles())
+		}
+		e.classes["end-of-history-directory-is-exactly-the-current-version"]++
 		for c, n := range e.classes {
 			ev.Class("TestPendingRollupFiles", c, n)
 		}
